@@ -742,3 +742,87 @@ func (m *Model) buildsEvalError(c *ssa.Call) bool {
 	errT := m.namedType("object", "Error")
 	return errT != nil && types.Identical(sc.Signature.Results().At(0).Type(), types.NewPointer(errT))
 }
+
+// RunSupportedKinds — R-KINDS (supported kinds): "every Go value composed of bool, string, integers of any width, floats,
+// pointers, slices, string-keyed maps and structs is visible" speaks of kinds, not of the predeclared types: a value of
+// `type Status string` is a string. The conversion dispatches on the exact type first (a type switch, which a named
+// type does not match) and then on reflect's Kind: every supported kind must have a case there, or values of named
+// types of that kind are refused as unsupported.
+func (m *Model) RunSupportedKinds(s *Sink, rule string) {
+	nto := m.PkgFunc("object", "NativeToObject")
+	if nto == nil {
+		s.Undecided(rule, "object.NativeToObject", "-", "not found")
+		return
+	}
+	want := map[int64]string{1: "Bool", 2: "Int", 3: "Int8", 4: "Int16", 5: "Int32", 6: "Int64", 7: "Uint", 8: "Uint8", 9: "Uint16", 10: "Uint32", 11: "Uint64",
+		13: "Float32", 14: "Float64", 21: "Map", 22: "Pointer", 23: "Slice", 24: "String", 25: "Struct"}
+	have := map[int64]bool{}
+	nCmp := 0
+	for _, f := range m.reachableFns([]*ssa.Function{nto}) {
+		if shortPkg(fnPkgPath(f)) != "object" {
+			continue
+		}
+		for _, b := range f.Blocks {
+			for _, in := range b.Instrs {
+				bo, ok := in.(*ssa.BinOp)
+				if !ok || bo.Op != token.EQL {
+					continue
+				}
+				for _, pr := range [][2]ssa.Value{{bo.X, bo.Y}, {bo.Y, bo.X}} {
+					k, isK := pr[1].(*ssa.Const)
+					if !isK || k.Value == nil {
+						continue
+					}
+					nt, isN := k.Type().(*types.Named)
+					if !isN || nt.Obj().Pkg() == nil || nt.Obj().Pkg().Path() != "reflect" || nt.Obj().Name() != "Kind" {
+						continue
+					}
+					c, isC := pr[0].(*ssa.Call)
+					if !isC {
+						continue
+					}
+					name := ""
+					if sc := c.Call.StaticCallee(); sc != nil {
+						name = fnFullName(sc)
+					} else if c.Call.IsInvoke() {
+						name = "reflect.Type." + c.Call.Method.Name()
+					}
+					if !strings.HasSuffix(name, ".Kind") {
+						continue
+					}
+					// only the dispatch on the kind of the value itself (not of a map's key type, an element type, ...)
+					if c.Call.IsInvoke() {
+						if tc, isTC := c.Call.Value.(*ssa.Call); !isTC || tc.Call.StaticCallee() == nil || fnFullName(tc.Call.StaticCallee()) != "reflect.TypeOf" {
+							continue
+						}
+					} else if len(c.Call.Args) == 1 {
+						if vc, isVC := c.Call.Args[0].(*ssa.Call); !isVC || vc.Call.StaticCallee() == nil || (fnFullName(vc.Call.StaticCallee()) != "reflect.ValueOf" && fnFullName(vc.Call.StaticCallee()) != "reflect.TypeOf") {
+							if _, isPar := c.Call.Args[0].(*ssa.Parameter); !isPar {
+								continue
+							}
+						}
+					}
+					nCmp++
+					have[k.Int64()] = true
+				}
+			}
+		}
+	}
+	if nCmp < 4 {
+		s.Undecided(rule, "object.NativeToObject|kind dispatch", m.Pos(nto.Pos()), "only %d comparisons of the value's reflect kind with a constant were found in the conversion (expected the cases for structs, slices, maps and pointers at least)", nCmp)
+		return
+	}
+	var missing []string
+	for k, n := range want {
+		if !have[k] {
+			missing = append(missing, n)
+		}
+	}
+	sort.Strings(missing)
+	key := "object.NativeToObject|every supported kind has a case in the dispatch on the value's kind"
+	if len(missing) > 0 {
+		s.Violation(rule, key, m.Pos(nto.Pos()), "the conversion's dispatch on reflect.Kind has no case for %s: a value whose type is a named type of that kind (`type Status string`, `type Celsius float64`, time.Duration) does not match the type switch either and is refused as unsupported, at any depth", strings.Join(missing, ", "))
+	} else {
+		s.OK(rule, key, m.Pos(nto.Pos()), "the kind dispatch has cases for the 18 supported kinds (%d comparisons)", nCmp)
+	}
+}
